@@ -1,7 +1,7 @@
 (* Correspondence checkers for Irving.scf and its public stages (C03, C17). *)
 From Coq Require Import ZArith List Bool.
 Import ListNotations.
-From SCK Require Import Irving IrvRot.
+From SCK Require Import Irving IrvRot IrvStable StableCheck.
 
 Definition irv_case : Type := (list (list nat) * list (list nat) * list (list Z) * list (list Z) * nat * expect)%type.
 (* every intermediate structure and the final matching agree with the observed ones *)
@@ -9,10 +9,17 @@ Definition irv_case : Type := (list (list nat) * list (list nat) * list (list Z)
    rotation is exposed (distinct men, all pairs present) in the matching it is eliminated from *)
 Definition elim_hyp (t : trace) : bool :=
   perfectb (t_M0 t) && exposed_allb (t_M0 t) (map (fun i => nth i (t_rots t) []) (t_S t)).
+(* hypotheses of IrvBridge.irving_final_stable_wives: the first matching is a stable perfect matching of 0..n-1, the men's
+   rows are strict, and every selected rotation is exposed (next woman = first one who prefers the man to her husband) in
+   the matching it is eliminated from *)
+Definition stab_hyp (P1 P2 : list (list nat)) (t : trace) : bool :=
+  let n := length P1 in
+  perfect_b n (map fst (t_M0 t)) && perfect_b n (map snd (t_M0 t)) && pstableb P1 P2 (t_M0 t) && strict_onb P1 (t_M0 t) &&
+  exposed_full_allb P1 P2 (t_M0 t) (map (fun i => nth i (t_rots t) []) (t_S t)).
 Definition chk_irv (c : irv_case) : bool :=
   let '(P1, P2, V1, V2, ff, e) := c in
   match irving P1 P2 V1 V2 ff with
-  | Some t => Nat.eqb (icheck_t t e) 0 && elim_hyp t
+  | Some t => Nat.eqb (icheck_t t e) 0 && elim_hyp t && stab_hyp P1 P2 t
   | None => false
   end.
 
@@ -21,6 +28,6 @@ Definition irv_out_case : Type := (list (list nat) * list (list nat) * list (lis
 Definition chk_irv_out (c : irv_out_case) : bool :=
   let '(P1, P2, V1, V2, ff, e) := c in
   match irving P1 P2 V1 V2 ff with
-  | Some t => match t_out t with Some o => lp_eqb o e | None => false end && elim_hyp t
+  | Some t => match t_out t with Some o => lp_eqb o e | None => false end && elim_hyp t && stab_hyp P1 P2 t
   | None => false
   end.
